@@ -297,13 +297,20 @@ def isInteriorDistanceLess (x a b : V3) (limit : F64) : Bool := (updateMinInteri
 /-- the chord angle inside `DistanceFromSegment` (before `.Angle()`) -/
 def distanceFromSegmentChord (x a b : V3) : F64 := (updateMinDistance x a b fz true).1
 
-/-- `UpdateMaxDistance` -/
+/-- `ChordAngle.MaxPointError` (s1 constants) -/
+def maxPointError (c : F64) : F64 := mpC1 * c + mpC2
+
+/-- `ChordAngle.Expanded(e)` for a non-special chord angle: clamp of `c + e` to `[0, 4]` -/
+def chordExpanded (c e : F64) : F64 := F64.fmax (F64.zero false) (F64.fmin f4 (c + e))
+
+/-- `UpdateMaxDistance` (the 90-degree test allows for the error of the endpoint distances: repair D41) -/
 def updateMaxDistance (x a b : V3) (maxDist : F64) : F64 × Bool :=
   let ca := chordBetween x a
   let cb := chordBetween x b
   let dist0 := if F64.gt cb ca then cb else ca
   let dist :=
-    if F64.gt dist0 f2 then f4 - (updateMinDistance (x.mul fNegOne) a b dist0 true).1 else dist0
+    if F64.gt (chordExpanded dist0 (maxPointError dist0)) f2 then
+      f4 - (updateMinDistance (x.mul fNegOne) a b dist0 true).1 else dist0
   if F64.lt maxDist dist then (dist, true) else (maxDist, false)
 
 /-- `Project(x, a, b)` -/
@@ -313,8 +320,6 @@ def project (x a b : V3) : V3 :=
   if sign aXb a p && sign p b aXb then p.normalize
   else if F64.le (x.sub a).norm2 (x.sub b).norm2 then a else b
 
-/-- `ChordAngle.MaxPointError` (s1 constants) -/
-def maxPointError (c : F64) : F64 := mpC1 * c + mpC2
 
 /-- `minUpdateInteriorDistanceMaxError` -/
 def minUpdateInteriorDistanceMaxError (dist : F64) : F64 :=
